@@ -16,7 +16,7 @@ from valida.rules import Rule
 from valida.schema import Schema
 
 from .. import gen as G
-from ..common import Report, stream, digest, order_to_decisions
+from ..common import Report, stream, digest, order_to_decisions, big
 from ..engine import Engine, Monitor, Scripted
 from ..ops import canon_vd
 from ..terms import World, TYPES, snap, diff_path, attr_locus
@@ -102,7 +102,7 @@ def generate(seed):
     programs = [[] for _ in range(n_callers)]
     order = []
     ns = len(schemas)
-    for _ in range(r.randint(2, 8)):
+    for _ in range(r.randint(2, 8) + (r.randint(2, 8) if big(r) else 0)):
         c = r.randrange(n_callers)
         if r.random() < 0.65:
             # bias: T-like schemas as source, S-like as receiver, but chains too
